@@ -10,7 +10,7 @@ import re
 
 from copy import copy
 
-from cocoasm.exceptions import ParseError, TranslationError, OperandTypeError
+from cocoasm.exceptions import ParseError, TranslationError, OperandTypeError, ValueTypeError
 from cocoasm.instruction import INSTRUCTIONS, CodePackage
 from cocoasm.operands import Operand, BadInstructionOperand
 from cocoasm.values import NumericValue
@@ -145,7 +145,7 @@ class Statement(object):
                     self.original_operand = copy(self.operand)
                     self.comment = data.group("comment").strip() or ""
                     self.is_empty = False
-                except OperandTypeError as error:
+                except (OperandTypeError, ValueTypeError) as error:
                     raise ParseError(str(error), line)
             return
 
